@@ -59,6 +59,8 @@ type vState struct {
 	curMsg       string
 	lastCase     any
 	lastMsg      string
+	firstCase    any // the first failing case of the running property and its message
+	firstMsg     string
 	knownOpen    map[string]bool
 	journalF     *os.File
 }
@@ -384,6 +386,13 @@ func rcheck(t *testing.T, name string, n int, prop func(*rapid.T)) {
 			if t.Failed() && V.harnessErr == "" {
 				V.mu.Lock()
 				msg := V.lastMsg
+				if msg == "" && V.firstMsg != "" {
+					// rapid ran the failing case again and it passed: the failure depends on
+					// state earlier cases of this run left behind. The first failure is the
+					// finding; its message and case are reported.
+					msg = V.firstMsg + " [when rapid ran this case again by itself it passed: the failure depends on what earlier cases of the run left behind in the proxy or its peers]"
+					V.lastCase = V.firstCase
+				}
 				if msg == "" {
 					msg = "the property failed without a harness message (product panic inside the case, or a failure rapid could not reproduce: see log_tail)"
 				}
@@ -391,6 +400,9 @@ func rcheck(t *testing.T, name string, n int, prop func(*rapid.T)) {
 				V.mu.Unlock()
 			}
 		}()
+		V.mu.Lock()
+		V.firstMsg, V.firstCase = "", nil
+		V.mu.Unlock()
 		rapid.Check(t, func(rt *rapid.T) {
 			V.mu.Lock()
 			V.curCase, V.curMsg = nil, ""
@@ -398,6 +410,9 @@ func rcheck(t *testing.T, name string, n int, prop func(*rapid.T)) {
 			defer func() {
 				V.mu.Lock()
 				V.lastCase, V.lastMsg = V.curCase, V.curMsg
+				if V.curMsg != "" && V.firstMsg == "" {
+					V.firstMsg, V.firstCase = V.curMsg, V.curCase
+				}
 				V.mu.Unlock()
 			}()
 			V.Eval()
